@@ -26,6 +26,17 @@ def make_binned(contents, dims, shape=None):
     return v
 
 
+def make_binned_layout(buffer, begin, end, dims, shape=None, dim=None):
+    """Binned variable given as scipp stores it: an event buffer (Variable or DataArray, 1-d) and per-bin [begin, end)
+    index ranges, which need not tile the buffer (gaps, unused events at the end, slices of a larger object)."""
+    begin, end = [int(b) for b in begin], [int(e) for e in end]
+    dim = dim or _data_of(buffer).dims[0]
+    contents = [buffer[dim, b:e] for b, e in zip(begin, end, strict=True)]
+    v = make_binned(contents, dims, shape)
+    v._bins._layout = {'begin': begin, 'end': end, 'data': buffer, 'dim': dim}
+    return v
+
+
 def _data_of(c):
     return c.data if hasattr(c, 'coords') else c
 
@@ -60,6 +71,8 @@ class _BinCoords:
 
 
 class Bins:
+    _layout = None
+
     def __init__(self, var):
         self._v = var
 
@@ -84,13 +97,26 @@ class Bins:
         from .api import concat
 
         cs = self._contents()
+
+        def idx(vals):
+            a = np.empty(self._v.shape, dtype=object)
+            for i, x in zip(np.ndindex(self._v.shape), vals, strict=True):
+                a[i] = R.lift(x)
+            return Variable(_arr=a, dims=self._v.dims, unit=None, dtype=DType.int64)
+
+        if self._layout is not None:
+            lay = self._layout
+            return {'data': lay['data'], 'begin': idx(lay['begin']), 'end': idx(lay['end']), 'dim': lay['dim']}
         datas = [_data_of(c) for c in cs]
         if datas:
             dim = datas[0].dims[0]
-            buf = concat(datas, dim) if len(datas) > 1 else datas[0]
+            buf = concat(cs, dim) if len(cs) > 1 else cs[0]
         else:
             buf = Variable(dims=('event',), values=[], dtype='float64')
-        return {'data': buf, 'dim': buf.dims[0] if buf.dims else 'event'}
+            dim = 'event'
+        sizes = [len(d) for d in datas]
+        begin = [sum(sizes[:i]) for i in range(len(sizes))]
+        return {'data': buf, 'begin': idx(begin), 'end': idx([b + n for b, n in zip(begin, sizes, strict=True)]), 'dim': dim}
 
     @property
     def coords(self):
